@@ -5,7 +5,9 @@ structural model AddModel (tied to the library by C01's structural correspondenc
 pairs), a/b scaling, order of the equations, port renumbering at matrix level (mathcomp, any n).
 Tie / support: pairs of scenarios related by each transformation of the property run through the
 public C API (harness/calcore_e2e.c); applied S-parameters compared to 1e-9 relative; for through /
-line / mapped and full / abbreviated the structural dumps are compared exactly.
+line / mapped and full / abbreviated the structural dumps are compared exactly.  Also: 3-4-port
+standards on permuted ports (full vs abbreviated), order on noisy data with m_error, and histories of
+the interpolation hint of shared vector parameters (see docs/design_C17.md).
 """
 import copy
 import os
